@@ -339,15 +339,21 @@ func C18(tier string) int {
 		e func() *gdbi.GraphElement
 	}
 	els := []el{
-		{"v", func() *gdbi.GraphElement { return &gdbi.GraphElement{Graph: "g", Vertex: &gdbi.Vertex{ID: "v", Label: "L"}} }},
-		{"v-invalid", func() *gdbi.GraphElement { return &gdbi.GraphElement{Graph: "g", Vertex: &gdbi.Vertex{ID: "", Label: "L"}} }},
+		{"v", func() *gdbi.GraphElement {
+			return &gdbi.GraphElement{Graph: "g", Vertex: &gdbi.Vertex{ID: "v", Label: "L"}}
+		}},
+		{"v-invalid", func() *gdbi.GraphElement {
+			return &gdbi.GraphElement{Graph: "g", Vertex: &gdbi.Vertex{ID: "", Label: "L"}}
+		}},
 		{"e", func() *gdbi.GraphElement {
 			return &gdbi.GraphElement{Graph: "g", Edge: &gdbi.Edge{ID: "e", Label: "x", From: "v", To: "v"}}
 		}},
 		{"e-invalid", func() *gdbi.GraphElement {
 			return &gdbi.GraphElement{Graph: "g", Edge: &gdbi.Edge{ID: "e", Label: "", From: "v", To: "v"}}
 		}},
-		{"other-graph", func() *gdbi.GraphElement { return &gdbi.GraphElement{Graph: "h", Vertex: &gdbi.Vertex{ID: "v", Label: "L"}} }},
+		{"other-graph", func() *gdbi.GraphElement {
+			return &gdbi.GraphElement{Graph: "h", Vertex: &gdbi.Vertex{ID: "v", Label: "L"}}
+		}},
 	}
 	sbRuns := 0
 	checkSB := func(seq []int, batch int) {
